@@ -414,6 +414,21 @@ def emptyOfKind (k : Nat) : Option LDoc :=
   | 10 => some .null
   | _ => none
 
+/-- `Value{ValueType::Object, n}` / `Value{ValueType::Array, n}`: an empty container that owns a block when
+`n ≠ 0` (`Size() == 0`, `Capacity() != 0`). -/
+def reserveL (k n : Nat) : LM (Option LDoc) :=
+  match k with
+  | 2 => if n = 0 then LM.pure (some (.obj none 0 [])) else LM.bind allocB (fun b => LM.pure (some (.obj (some b) (allocCap n) [])))
+  | 3 => if n = 0 then LM.pure (some (.arr none 0 [])) else LM.bind allocB (fun b => LM.pure (some (.arr (some b) n [])))
+  | _ => LM.pure none
+
+/-- `GetObject()->Clear()` / `GetArray()->Clear()`: the items are disposed, block and capacity stay. -/
+def clearL (v : LDoc) : LM LDoc :=
+  match v with
+  | .obj b c s => LM.bind (freeAll (ownedSlots s)) (fun _ => LM.pure (.obj b c []))
+  | .arr b c items => LM.bind (freeAll (ownedItems items)) (fun _ => LM.pure (.arr b c []))
+  | d => LM.pure d
+
 mutual
 /-- `Compress()`. -/
 def compressL : LDoc → LM LDoc
@@ -546,6 +561,8 @@ inductive LOp where
   | removeIdx (t : LLoc) (i : Nat)
   | reset (t : LLoc)
   | compress (t : LLoc)
+  | reserve (t : LLoc) (k n : Nat)
+  | clear (t : LLoc)
   deriving Repr, Inhabited
 
 def lenvGet (env : LEnv) (r : Nat) : LDoc :=
@@ -570,7 +587,7 @@ def withTmp {α : Type} (k : Nat) (body : LM α) : LM α :=
 def LOp.target : LOp → LLoc
   | .assign t _ _ | .touch t | .setType t _ | .copy t _ | .move t _ | .assignObj t _ | .assignArr t _ | .setPtr t _
   | .append t _ _ | .appendMove t _ | .appendCopy t _ | .appendObj t _ | .appendArr t _ | .addPtr t _ | .insert t _ _
-  | .insertMove t _ _ | .mergeMove t _ | .mergeCopy t _ | .remove t _ _ | .removeIdx t _ | .reset t | .compress t => t
+  | .insertMove t _ _ | .mergeMove t _ | .mergeCopy t _ | .remove t _ _ | .removeIdx t _ | .reset t | .compress t | .reserve t _ _ | .clear t => t
 
 /-- one operation on a target among the forest's roots. -/
 def stepBody (op : LOp) (env : LEnv) : LM LEnv :=
@@ -640,6 +657,12 @@ def stepBody (op : LOp) (env : LEnv) : LM LEnv :=
   | .removeIdx t i => onTargetL env t (removeIdxL i)
   | .reset t => onTargetL env t (replaceBy .undef)
   | .compress t => onTargetL env t compressL
+  | .reserve t k n =>
+      LM.bind (reserveL k n) (fun r =>
+        match r with
+        | some x => onTargetL env t (replaceBy x)
+        | none => onTargetL env t LM.pure)
+  | .clear t => onTargetL env t clearL
 
 /-- One operation; an operation whose target root is not a root of the forest is not an operation on this
 forest (the drivers only name existing roots). -/
